@@ -40,7 +40,7 @@ RULE = ("Cases = (request body length, response body length, client maximum size
         "boundary table: body lengths "
         "0,1,15,16,17,...,1023,1024,1025,1123,1124,1125,2047,2048,2049,multi-kB x client szx 0..6 "
         "x reduction schedules for uploads and x server szx 0..6 x client szx for downloads, every "
-        "deviation kind (28: 17 sequencing violations incl. 2.31 without Block1, a Block2 block larger than "
+        "deviation kind (27: 17 sequencing violations incl. 2.31 without Block1, a Block2 block larger than "
         "requested and a first block larger than the application's hint, 6 single complete responses that end the "
         "transfer - a response without Block1 option being a violation when it is successful and answers a non-final "
         "block -, 3 harmless oddities incl. Observe in an "
